@@ -327,6 +327,20 @@ pub type DTMap = Map<(Role, u32), (InputHandle, DeliveryTag)>;
 /// disposition-routing view: links, delivery-id table, ids for which the link asked for a settling echo
 pub struct DS { pub links: Links, pub dt: DTMap, pub echo_ids: Seq<u32> }
 
+/// the delivery-id table without the entries (role, id) for id in ids
+pub open spec fn remove_ids(dt: DTMap, role: Role, ids: Seq<u32>) -> DTMap
+    decreases ids.len()
+{
+    if ids.len() == 0 { dt } else { remove_ids(dt, role, ids.drop_last()).remove((role, ids.last())) }
+}
+pub proof fn lemma_remove_ids_gone(dt: DTMap, role: Role, ids: Seq<u32>, i: int)
+    requires 0 <= i < ids.len(),
+    ensures !remove_ids(dt, role, ids).contains_key((role, ids[i])),
+    decreases ids.len(),
+{
+    if i < ids.len() - 1 { lemma_remove_ids_gone(dt, role, ids.drop_last(), i); }
+}
+
 pub open spec fn disp_step(s: DS, role: Role, settled: bool, state: Option<DeliveryState>, id: u32) -> DS {
     let key = (role, id);
     if s.dt.contains_key(key) {
@@ -872,7 +886,7 @@ impl Session {
             let last = if disposition.last is Some { disposition.last->Some_0 } else { disposition.first };
             let run = disp_run(old(self).ds(), disposition.role, disposition.settled, disposition.state, disposition.first, range_count(disposition.first, last));
             &&& final(self).link_by_input_handle@ == run.links                                      // [C02.disposition.route] for every id in first..=last that is registered, exactly the link that owns it is told, with that delivery's own tag and the frame's state/settled flag -- no other link, no other tag
-            &&& final(self).delivery_tag_by_id@ == run.dt                                           // [C02.disposition.forget] settled => every id in the range is forgotten; not settled => table unchanged; ids outside the range untouched
+            &&& final(self).delivery_tag_by_id@ == (if disposition.settled { run.dt } else { remove_ids(run.dt, disposition.role, run.echo_ids) })   // [C02.disposition.forget] settled => every id in the range is forgotten; not settled => exactly the deliveries the session settles itself with its echo are forgotten, nothing else; ids outside the range untouched
             &&& disposition.settled ==> r->Ok_0 is None                                              // [C02.disposition.settled-no-echo]
             &&& !disposition.settled ==> r->Ok_0 is Some && ({
                     let ds = r->Ok_0->Some_0@;
@@ -931,11 +945,29 @@ impl Session {
         decreases (if __ri_done1 { 0int } else { __ri_end1 - __ri_cur1 + 1 }),
 //@@ loop 2
         invariant
-            __it2.seq() == chunk_inds@,
+            __it2.seq().len() == delivery_ids@.len(), forall|k: int| 0 <= k < delivery_ids@.len() ==> *(#[trigger] __it2.seq()[k]) == delivery_ids@[k],
+            !disposition.settled,
+            self.same_outside_disp(old(self)),
+            delivery_ids@ == disp_run(old(self).ds(), disposition.role, false, disposition.state, first, range_count(first, last)).echo_ids,
+            self.link_by_input_handle@ == disp_run(old(self).ds(), disposition.role, false, disposition.state, first, range_count(first, last)).links,
+            self.delivery_tag_by_id@ == remove_ids(disp_run(old(self).ds(), disposition.role, false, disposition.state, first, range_count(first, last)).dt, disposition.role, delivery_ids@.take(__it2.index@)),
+//@@ loopstart 2
+            proof { assert(delivery_ids@.take(__it2.index@ + 1).drop_last() =~= delivery_ids@.take(__it2.index@)); }
+//@@ at `let chunk_inds = consecutive_chunk_indices(` before
+            proof {
+                let run = disp_run(old(self).ds(), disposition.role, false, disposition.state, first, range_count(first, last));
+                assert(delivery_ids@.take(delivery_ids@.len() as int) =~= delivery_ids@);
+                assert forall|i: int| 0 <= i < delivery_ids@.len() implies !self.delivery_tag_by_id@.contains_key((disposition.role, #[trigger] delivery_ids@[i])) by {
+                    lemma_remove_ids_gone(run.dt, disposition.role, delivery_ids@, i);
+                }
+            }
+//@@ loop 3
+        invariant
+            __it3.seq() == chunk_inds@,
             chunk_inds@ == chunk_positions(delivery_ids@),
             chunk_positions_ok(chunk_inds@, delivery_ids@),
-            prev_ind == run_bound(chunk_inds@, delivery_ids@.len() as int, __it2.index@),
-            dispositions@.len() == __it2.index@,
+            prev_ind == run_bound(chunk_inds@, delivery_ids@.len() as int, __it3.index@),
+            dispositions@.len() == __it3.index@,
             forall|k: int| 0 <= k < dispositions@.len() ==> {
                 &&& (#[trigger] dispositions@[k]).first == delivery_ids@[run_bound(chunk_inds@, delivery_ids@.len() as int, k)]
                 &&& dispositions@[k].last == Some(delivery_ids@[run_bound(chunk_inds@, delivery_ids@.len() as int, k + 1) - 1])
